@@ -196,6 +196,27 @@ pub fn run(g: &mut Global) {
     if g.tier == Tier::Thorough {
         g.random("long", 800, &|| strategy(4000, 10000), &check);
     }
+    // sleep and wake (see hist::sleep_wake_bars): the composite and its parts must also agree on the bar on
+    // which activity resumes after the averages have decayed through the subnormal range
+    let seed1 = g.seed;
+    let swk: Vec<(Kind, usize, bool)> = vec![(Kind::Atr, 2, false), (Kind::Atr, 3, true), (Kind::Atr, 14, false), (Kind::Kc, 3, false), (Kind::Kc, 14, true), (Kind::Ce, 3, false), (Kind::Ce, 14, false), (Kind::SlowStoch, 3, false), (Kind::Macd, 3, true), (Kind::Ppo, 3, true), (Kind::Bb, 3, true), (Kind::Cci, 5, false)];
+    let nsw = swk.len() as u64;
+    g.exhaustive(
+        "sleep_wake",
+        nsw * 8,
+        &move |i| {
+            let (kind, n, scalar) = swk[(i % nsw) as usize];
+            let flat = crate::hist::SLEEP_LENS[(i / nsw) as usize % 8];
+            let bars = crate::hist::sleep_wake_bars(seed1 ^ i.wrapping_mul(0x9E3779B97F4A7C15), flat, [100.0, 0.37, 1e4][(i % 3) as usize]);
+            let cfg = crate::hist::cfg_small(kind, n);
+            if scalar {
+                Case { cfg, scalar: true, xs: bars.iter().map(|b| X(b.c)).collect(), bars: vec![] }
+            } else {
+                Case { cfg, scalar: false, xs: vec![], bars }
+            }
+        },
+        &check,
+    );
     // one composite instance (and its hand-wired parts) for 140 000 inputs: periods 1, 2 and 3 turn
     // their rings more than 2^16 times, which is where occasional re-synchronisations would fire
     let seed = g.seed;
